@@ -21,6 +21,8 @@ CONSTANTS
   ParseLeavesUnchecked = FALSE
   WithFault = TRUE
   DumpMemoPartial = FALSE
+  UseExt = FALSE
+  AppendFastPath = FALSE
   EmitH = TRUE
 SPECIFICATION HSpec
 VIEW HView
